@@ -18,16 +18,28 @@ import (
 type corpusPkg struct {
 	name string
 	src  string
+	// deferUntilRegistered: the exact input of a finding whose fix is not applied yet / that is not yet registered in
+	// known_findings.json: while the defect is present and the key is not registered, the failure is listed in report.json
+	// extra "deferred_corpus_failures" instead of being reported (reach.go: failLate)
+	deferUntilRegistered bool
 }
 
 var corpusPkgs = []corpusPkg{
-	{"chans", `package chans
+	// C30-3: an interface (literal) first reached from a method signature stays incomplete
+	// key: "reachable interface incomplete or wrong method set: corpus/latemeth.T.M>param0"
+	{name: "latemeth", deferUntilRegistered: true, src: `package latemeth
+type T struct{}
+func (T) M(x interface{ Foo() }) {}
+func (t *T) N() (r struct{ F interface{ error; Bar(T) } }) { return }
+type U interface{ Get() interface{ Baz() } }
+`},
+	{name: "chans", src: `package chans
 type T struct { S chan<- int; R <-chan int; B chan int; N chan (<-chan int) }
 var V chan<- string
 func F(a <-chan int, b chan<- int, c ...chan int) (x chan int) { return nil }
 type I interface { M(chan<- int) <-chan int }
 `},
-	{"consts", `package consts
+	{name: "consts", src: `package consts
 const A = 1 << 100
 const B = 1.5e300
 const C = "str\x00"
@@ -38,7 +50,7 @@ const G = true
 type K uint16
 const H K = 65535
 `},
-	{"structs", `package structs
+	{name: "structs", src: `package structs
 type A struct { X, y int; Z string "tag" }
 type B struct { A; *C; b bool }
 type C struct { Next *C; m map[string][]*B; f func(int, ...string) (bool, error) }
@@ -52,7 +64,7 @@ var V1 = B{}
 var V2 map[A][]F
 `},
 	// C30-1: a generic type whose underlying type does not mention its type parameter, with a method that does
-	{"genmeth", `package genmeth
+	{name: "genmeth", src: `package genmeth
 type P[T any] struct { u int }
 func (p *P[T]) Load() *T { return nil }
 type Plain struct { A int }
@@ -60,7 +72,7 @@ func (p Plain) M() int { return p.A }
 var V Plain
 `},
 	// generic declarations next to plain ones: the plain ones must survive
-	{"genmix", `package genmix
+	{name: "genmix", src: `package genmix
 type G[T any] struct { v T }
 func Map[T, U any](xs []T, f func(T) U) []U { return nil }
 type Num interface { ~int | ~float64 }
@@ -97,6 +109,7 @@ func (h *H) corpus() {
 			continue
 		}
 		h.comparePackage(gp, p)
+		h.compareReachable(gp, p, "corpus/"+c.name)
 		h.stats["corpus_packages"]++
 	}
 }
